@@ -33,6 +33,14 @@ class TaskErr(Exception):
     pass
 
 
+class BodyErr(Exception):
+    pass
+
+
+class TdBase(BaseException):
+    pass
+
+
 @st.composite
 def cases(draw: Any, tier: str) -> dict:
     d = D(draw)
@@ -92,7 +100,9 @@ def cases(draw: Any, tier: str) -> dict:
                             "after_exit": [d.pick(["soon", "start"]) for _ in range(d.weighted([(0, 50), (1, 35), (2, 15)]))],
                             "start_from_child": d.pct(25)}
     if handler != "truthy" and d.pct(25):
-        case["fatal"] = {"d": d.int(1, 3), "via": d.pick(["start", "soon"])}
+        case["fatal"] = {"d": d.int(1, 3), "via": d.pick(["start", "soon"]), "body_error": d.pct(40)}
+    elif d.pct(20):
+        case["td_raises_base"] = True  # a teardown callback registered after the factory raises a BaseException
     return case
 
 
@@ -116,6 +126,7 @@ class Interp:
         self.raised: dict[int, BaseException] = {}
         self.spawn_requests: dict[int, list[dict]] = {}
         self.fatal_exc: BaseException | None = None
+        self.body_exc: BaseException | None = None
         self.stop = False
         self.labels: set[str] = set()
         self.max_alive_at_op = 0
@@ -128,7 +139,7 @@ class Interp:
     def note_escape(self, exc: BaseException) -> None:
         for leaf in flatten_exc(exc):
             if isinstance(leaf, HarnessError) or (isinstance(leaf, Exception) and innermost_is_harness(leaf)
-                                                  and not isinstance(leaf, TaskErr)):
+                                                  and not isinstance(leaf, (TaskErr, BodyErr))):
                 if self.harness_exc is None:
                     self.harness_exc = leaf
 
@@ -385,12 +396,22 @@ class Interp:
                     self.factory.start_task_soon(boom)
                 else:
                     await self.factory.start_task(boom)
+                if f.get("body_error"):
+                    # the body fails on its own at the very moment the task does: both must surface
+                    await anyio.sleep(f["d"])
+                    self.body_exc = BodyErr("body failed")
+                    raise self.body_exc
                 try:
                     await anyio.sleep(100)
                 except cancelled_cls:
                     self.trace.append(["body-cancelled", now()])
                     raise
                 self.disc("fatal-not-propagated", "a task raised, the handler did not claim the exception, but the application kept running")
+            if case.get("td_raises_base") and not self.stop:
+                def bad_td() -> None:
+                    raise TdBase("teardown callback")
+
+                F.add_teardown_callback(bad_td)
             self.t_exit_call = now()
             self.running_at_exit = {t for t in self.alive() if t in self.handles}
 
@@ -412,6 +433,8 @@ class Interp:
             if isinstance(exc, Deadlock):
                 raise
             caught = exc
+            if not hasattr(self, "t_left"):
+                self.t_left = now()  # the block was left by an exception
         self.caught = caught
         # spawning after the factory's context is gone: the call fails and leaves no handle behind
         if not case["fatal"]:
@@ -455,6 +478,12 @@ class Interp:
                     if n != 1:
                         self.disc("handler-calls", f"the exception handler was called {n} times with the escaping exception")
         else:
+            if case.get("td_raises_base") and not self.stop:
+                # the raising callback must not stop the teardown from waiting for the tasks
+                leaves = flatten_exc(self.caught)
+                if not any(isinstance(l, TdBase) for l in leaves):
+                    self.disc("teardown-exception-lost", f"a teardown callback raised TdBase; the root context raised {self.caught!r}")
+                self.caught = None if all(isinstance(l, TdBase) for l in leaves) else self.caught
             if self.caught is not None and not self.stop:
                 self.disc("unexpected-exception", f"the root context raised {self.caught!r} ({[repr(x) for x in flatten_exc(self.caught)]})")
             elif not self.stop:
@@ -526,7 +555,7 @@ def run_case(case: dict, prop: str) -> Outcome:
         raise
     except BaseException as exc:
         it.note_escape(exc)
-        if it.harness_exc is not None or any(innermost_is_harness(l) and not isinstance(l, TaskErr) for l in flatten_exc(exc)):
+        if it.harness_exc is not None or any(innermost_is_harness(l) and not isinstance(l, (TaskErr, BodyErr, TdBase)) for l in flatten_exc(exc)):
             raise
         it.disc("run-raised:" + type(exc).__name__, f"run raised {short_exc(exc)}")
         return it.out
